@@ -2,6 +2,7 @@ package c05
 
 import (
 	"sort"
+	"unicode"
 
 	"verifharness/internal/gen"
 	"verifharness/internal/hbref"
@@ -94,6 +95,29 @@ func GenCase(r *gen.RNG, p *Pair, o GenOpts) Case {
 	}
 	if len(c.Text) == 0 {
 		c.Text = []rune{'a'}
+	}
+	if r.Chance(1, 12) {
+		// a run of 13..18 one-letter syllables before the text: the syllable serial of the
+		// syllabic shapers is a 4-bit counter that skips 0 when it wraps
+		var letter rune
+		for _, x := range c.Text {
+			if unicode.IsLetter(x) && !unicode.IsMark(x) {
+				letter = x
+				break
+			}
+		}
+		if letter == 0 && a != nil && len(a.Base) > 0 {
+			letter = gen.Pick(r, a.Base)
+		}
+		if letter != 0 {
+			n := 13 + r.Intn(6)
+			pre := make([]rune, n, n+len(c.Text))
+			for i := range pre {
+				pre[i] = letter
+			}
+			c.Text = append(pre, c.Text...)
+			c.Src += "+syllable-train"
+		}
 	}
 
 	// direction
